@@ -11,8 +11,8 @@ from pbt.core import Result, silence, exc_sig
 
 ID = "C22"
 LEVEL = "exploration"
-EXAMPLES = {"quick": 640, "thorough": 12000}
-SHRINK_S = {"quick": 12, "thorough": 60}
+EXAMPLES = {"quick": 480, "thorough": 12000}
+SHRINK_S = {"quick": 6, "thorough": 60}
 DEADLINE_S = {"quick": 240, "thorough": 3000}
 TECHNIQUE = "property-based testing: generated operation histories + invariant (referential integrity) oracle"
 RULE = ("case = network recipe (netgen, 1-3 voltage levels, trafo3w favoured) + extras (switches of the kinds b/l/t/t3, "
@@ -26,9 +26,11 @@ RULE = ("case = network recipe (netgen, 1-3 voltage levels, trafo3w favoured) + 
         "switch.element in the table named by et, measurement (element_type, element, side), cost (et, element), group "
         "members (by index or reference value), controller element_index and characteristic ids point to existing "
         "rows, res_<x>.index is a subset of <x>.index, indices unique. New violations are attributed to the operation "
-        "that introduced them (signature '<operation family>/<reference kind>'); afterwards the harness removes the "
+        "that introduced them (signature '<operation family>/<reference kind>', reduced by signature() to one per root cause: "
+        "functions sharing their clean-up code share the family); afterwards the harness removes the "
         "dangling rows itself and the history goes on. Exceptions raised by an explicit raise/assert of pandapower are "
-        "legal no-ops, any other exception is reported as '<family>/exception:<type>@<frame>'. "
+        "legal no-ops, any other exception is a failure '<family>/exception:<type>@<frame>' if it leaves dangling references "
+        "behind (a crash that leaves the net consistent is only counted as label crash-without-damage:*). "
         "Non-trivial = at least one edit operation (not a creation) executed on rows that were referenced from another "
         "table (switch, measurement, cost, group, controller, result or bus column); distinct by case hash.")
 ASSUMPTIONS = ["the initial enriched network is checked to be free of violations before the history starts",
@@ -38,10 +40,10 @@ ASSUMPTIONS = ["the initial enriched network is checked to be free of violations
                "after a violation the harness repairs the net (drops the dangling rows) so that later steps are judged on their own"]
 
 _THREE = [s for s in netgen.LEVEL_SETS if len(s) == 3]
-PROFILE = netgen.profile(level_sets=netgen.LEVEL_SETS + _THREE * 4, nb_level=(1, 4), nb_max=9, max_per_bus=2,
+PROFILE = netgen.profile(level_sets=netgen.LEVEL_SETS + _THREE * 8, nb_level=(1, 4), nb_max=9, max_per_bus=2,
                          dcline=True, oos=0.08, open_prob=0.3, noslack_island=True, custom_index=True,
                          bus_kinds={"load": 5, "sgen": 3, "gen": 2, "storage": 1, "shunt": 2, "ward": 1, "xward": 1,
-                                    "motor": 1, "asymmetric_load": 0, "asymmetric_sgen": 0},
+                                    "motor": 1, "asymmetric_load": 1, "asymmetric_sgen": 1},
                          shifts=(0.0, 0.0, 30.0, 150.0), extra_branches=(0, 2))
 PROFILE2 = netgen.profile(level_sets=[[20.0], [110.0, 20.0], [20.0, 0.4], [110.0, 20.0, 0.4]], nb_level=(1, 2),
                           nb_max=5, max_per_bus=2, dcline=False, oos=0.0, noslack_island=False, custom_index=False,
@@ -98,6 +100,8 @@ def _extras(draw, small=False):
     if draw(st.integers(0, 4)) == 0:
         ex["facts"] = draw(st.lists(st.fixed_dictionaries({"t": st.sampled_from(ops.FACTS), "a": K, "b": K}),
                                     min_size=1, max_size=2))
+    if not small and draw(st.integers(0, 2)) > 0:
+        ex["add_t3"] = {"a": draw(K), "b": draw(K), "c": draw(K)}      # a trafo3w if the recipe has none
     ex["run"] = draw(_w({"pp": 8, "dc": 1, "none": 1}))
     if ex["run"] == "none":
         ex["run"] = None
@@ -114,14 +118,16 @@ def _op(name, **fields):
 
 MODE = st.sampled_from(["offset", "reverse", "sub", "swap"])
 OFF = st.sampled_from([1, 2, 7, 100])
-ANY_ET = _w({"line": 4, "trafo": 4, "trafo3w": 6, "load": 3, "sgen": 3, "gen": 2, "ext_grid": 1, "storage": 1,
+ANY_ET = _w({"line": 4, "trafo": 4, "trafo3w": 12, "load": 3, "sgen": 3, "gen": 2, "ext_grid": 1, "storage": 1,
              "shunt": 1, "ward": 1, "xward": 1, "motor": 1, "impedance": 2, "dcline": 1, "switch": 2, "measurement": 1,
-             "poly_cost": 1, "pwl_cost": 1, "bus": 2, "group": 1, "svc": 1, "ssc": 1, "tcsc": 1})
+             "poly_cost": 1, "pwl_cost": 1, "bus": 2, "group": 1, "svc": 1, "ssc": 1, "tcsc": 1, "asymmetric_load": 1,
+             "asymmetric_sgen": 1})
 DROP_ET = _w({"line": 2, "trafo": 2, "trafo3w": 3, "load": 4, "sgen": 4, "gen": 3, "ext_grid": 1, "storage": 2,
               "shunt": 1, "ward": 1, "xward": 1, "motor": 1, "impedance": 2, "dcline": 2, "switch": 2, "measurement": 1,
               "bus": 2, "svc": 1, "tcsc": 1})
 SIMPLE_ET = _w({"load": 4, "sgen": 4, "gen": 3, "ext_grid": 1, "storage": 2, "shunt": 1, "ward": 1, "xward": 1,
                 "motor": 1, "impedance": 2, "dcline": 2, "switch": 2, "measurement": 1})
+TOWARD = st.sampled_from([None, None, None, "controller", "controller", "cost", "measurement", "t3", "t3", "t3"])
 OOS = st.dictionaries(st.sampled_from(["bus", "line", "trafo", "trafo3w", "load", "sgen", "gen", "impedance", "dcline",
                                        "shunt", "ward", "xward", "storage"]), KS, max_size=3)
 PQ = st.sampled_from(["load", "sgen", "storage"])
@@ -147,17 +153,22 @@ CREATE_OPS = {
     "runpp": (3, _op("runpp", mode=st.sampled_from(["pp", "pp", "dc"]))),
 }
 EDIT_OPS = {
-    "reindex_elements": (12, _op("reindex_elements", et=ANY_ET, mode=MODE, ks=KS, off=OFF,
+    "reindex_elements": (12, _op("reindex_elements", et=ANY_ET, mode=MODE, ks=KS, off=OFF, toward=TOWARD,
                                  via=st.sampled_from(["lookup", "new"]))),
     "drop_buses": (5, _op("drop_buses", ks=KS, via_drop_elements=st.sampled_from([False, False, True]))),
     "drop_lines": (3, _op("drop_lines", ks=KS)),
     "drop_trafos": (4, _op("drop_trafos", ks=KS, table=st.sampled_from(["trafo", "trafo3w"]))),
-    "drop_elements": (6, _op("drop_elements", et=DROP_ET, ks=KS)),
+    "drop_elements": (6, _op("drop_elements", et=DROP_ET, ks=KS, toward=TOWARD)),
     "drop_elements_simple": (3, _op("drop_elements_simple", et=SIMPLE_ET, ks=KS)),
     "drop_elements_at_buses": (3, _op("drop_elements_at_buses", ks=KS, bus_elements=st.sampled_from([True, True, False]),
                                       branch_elements=st.sampled_from([True, True, False]),
                                       drop_measurements=st.sampled_from([True, True, False]))),
     "drop_switches_at_buses": (1, _op("drop_switches_at_buses", ks=KS)),
+    "drop_references": (1, st.one_of(
+        _op("drop_measurements_at_elements", et=st.sampled_from(["bus", "line", "trafo", "trafo3w", "load", "sgen"]),
+            ks=KS, all=B),
+        _op("drop_controllers_at_elements", et=st.sampled_from(["load", "sgen", "trafo", "trafo3w", "gen"]), ks=KS, all=B),
+        _op("drop_controllers_at_buses", ks=KS))),
     "drop_inner_branches": (2, _op("drop_inner_branches", ks=st.lists(K, min_size=2, max_size=5),
                                    branch_elements=st.sampled_from([None, None, ["line"], ["line", "switch"],
                                                                     ["trafo", "trafo3w"]]))),
@@ -168,7 +179,7 @@ EDIT_OPS = {
                                                  respect_switches=st.sampled_from([True, True, False]))),
     "fuse_buses": (6, _op("fuse_buses", b1=K, b2=KS, drop=st.sampled_from([True, True, True, False]), single=B)),
     "select_subnet": (5, _op("select_subnet", drop=st.lists(K, min_size=1, max_size=4), include_switch_buses=B,
-                             include_results=B, keep_everything_else=st.sampled_from([False, False, False, True]))),
+                             include_results=B, keep_everything_else=st.sampled_from([False, False, False, False, False, True]))),
     "merge_nets": (4, _op("merge_nets", merge_results=st.sampled_from([True, True, False]),
                           swap=st.sampled_from([False, False, True]))),
     "reindex_buses": (5, _op("reindex_buses", mode=MODE, ks=KS, off=OFF, via_reindex_elements=st.sampled_from([False, False, True]))),
@@ -240,7 +251,7 @@ def classify(kind, info):
                 base = base[:-len(s)]
         if base == target or target == "*" and base != "switch":
             return "res_index:own"
-        return "res_index:" + tail
+        return "res_index:res_" + _cls(base)
     if head == "dup_index":
         t = tail[4:] if tail.startswith("res_") else tail
         return "dup_index:" + ("res_" if tail.startswith("res_") else "") + _cls(t)
@@ -256,6 +267,43 @@ def classify(kind, info):
     if col in integ.BUS_COLS:
         return "bus_ref:" + _cls(t)
     return kind
+
+
+DROP_FAMILIES = ("drop_buses", "drop_branches", "drop_elements", "drop_out_of_service", "fuse_buses", "replace_branch")
+REPLACE_FAMILIES = ("replace_gen_like", "replace_pq_elmtype", "replace_ward_like")
+
+
+def signature(fam, kind):
+    """'<operation family>/<reference kind>' reduced to one signature per root cause: functions that share their
+    clean-up code (drop_lines/drop_trafos/drop_switches_at_buses/_inner_branches/drop_elements_simple are the leaves
+    of every drop_* function, of fuse_buses and of replace_line_by_impedance) share the family."""
+    if kind == "bus_ref:facts":
+        return "bus_edits/bus_ref:facts"            # element_bus_tuples() does not know svc / ssc / tcsc
+    if fam == "merge_same_bus_generation_plants":
+        return fam + "/references-to-merged-plants"
+    if fam == "select_subnet:keep_everything_else":
+        return fam + ("/res_index:res_switch" if kind == "res_index:res_switch" else "/kept-tables")
+    if fam in DROP_FAMILIES:
+        if kind in ("res_index:res_switch", "group.member:switch"):
+            return "drop/" + kind
+        if kind == "controller.element_index":
+            return ("drop_buses/" if fam == "drop_buses" else "drop_elements/") + kind
+        if kind.startswith("cost.element"):
+            return "drop_elements/cost.element"
+        if kind == "measurement.element:bus_element":
+            return "drop_elements/" + kind
+        if kind in ("res_index:res_other_branch", "group.member:other_branch"):
+            return "drop_inner_branches/res_index:res_other_branch"   # one generic net[elm].drop() without clean-up
+    if fam in REPLACE_FAMILIES:
+        fam = "replace"
+        if kind.startswith("exception:") and ":replace_" in kind:
+            kind = kind.rsplit(":", 1)[0] + ":replace_*"
+    if fam == "create_continuous_elements_index":
+        if kind in ("switch.element:t3", "controller.element_index", "measurement.element:bus_element"):
+            fam = "reindex_elements"               # inherited from reindex_elements
+        elif kind.startswith("res_index"):
+            kind = "res_index"                      # res_switch / res_asymmetric_* are not in its table list
+    return "%s/%s" % (fam, kind)
 
 
 def _documented_rejection(e):
@@ -328,6 +376,7 @@ def check(case):
         except Exception as e:      # noqa: BLE001 - classified below
             if isinstance(e, pp.LoadflowNotConverged) or _documented_rejection(e):
                 status = "rejected"
+                rej = e
             else:
                 status = "exception"
                 err = e
@@ -337,20 +386,20 @@ def check(case):
         info = aux.get("last_info") or info
         fam = info.get("family", name)
         if status == "rejected":
-            res.label("rejected:" + name)
+            res.label("rejected:%s:%s" % (name, type(rej).__name__))
         vs = integ.violations(net)
         if status == "exception":
             # a crash is a C22 failure only if it leaves the net half-edited (dangling references); a crash that leaves
             # the net consistent is counted in the labels (reported as a side finding, not as a violation)
             if vs:
-                res.fail("%s/exception:%s" % (fam, exc_sig(err)), step=step, op=op, error=repr(err)[:300],
+                res.fail(signature(fam, "exception:" + exc_sig(err)), step=step, op=op, error=repr(err)[:300],
                          left_behind=sorted({classify(v["kind"], info) for v in vs}), violation=vs[0])
             else:
                 res.label("crash-without-damage:%s" % exc_sig(err))
         elif vs:
             seen = set()
             for v in vs:
-                sig = "%s/%s" % (fam, classify(v["kind"], info))
+                sig = signature(fam, classify(v["kind"], info))
                 if sig in seen:
                     continue
                 seen.add(sig)
